@@ -363,6 +363,29 @@ pub(crate) fn checked_container_size(
     Ok(size as usize)
 }
 
+/// Reads exactly `len` bytes from an async reader. `len` comes from the wire, so it
+/// is only trusted for the allocation when it is small; beyond that the buffer grows
+/// with the bytes actually received.
+pub(crate) async fn read_exact_to_vec<R>(reader: &mut R, len: usize) -> std::io::Result<Vec<u8>>
+where
+    R: tokio::io::AsyncRead + Unpin,
+{
+    use tokio::io::AsyncReadExt;
+
+    const PREALLOC_LIMIT: usize = 4096;
+    if len <= PREALLOC_LIMIT {
+        let mut v = vec![0; len];
+        reader.read_exact(&mut v).await?;
+        return Ok(v);
+    }
+    let mut v = Vec::with_capacity(PREALLOC_LIMIT);
+    let n = reader.take(len as u64).read_to_end(&mut v).await?;
+    if n != len {
+        return Err(std::io::ErrorKind::UnexpectedEof.into());
+    }
+    Ok(v)
+}
+
 impl<B> ReadExt for B
 where
     B: bytes::Buf,
